@@ -323,8 +323,8 @@ theorem buildUnit_later (pol : Policy) (cfg : Cfg) (st : RState) (v : View) {k :
       else if expand cfg e = [] then ([], [], .skip, st) else ([], expand cfg e, .unit, st) := by
   have hk' : e.key ≠ [] := by rw [h.key]; exact hk
   unfold buildUnit
-  simp only [h.data, h.notFirst, useRestore_split h.split, h.key, expandB_eq cfg e hk']
-  by_cases hs : st = some k <;> simp [hs, hk]
+  simp only [h.data, h.notFirst, useRestore_split h.split, h.key]
+  by_cases hs : st = some k <;> simp [hs, hk, expandB_eq cfg e hk']
 
 theorem runBisync_nil (pol cfg st t) : runBisync pol cfg st t [] = { st := st, tgt := t } := rfl
 
@@ -399,7 +399,7 @@ theorem objSteps_wrapUnit (k now o) (cmds : List Req) :
 theorem execUnit_onKey {k : Bytes} {cmds : List Req} (h : ∀ r ∈ cmds, onKey k r) : ∀ r ∈ execUnit cmds, onKey k r := by
   intro r hr
   simp only [execUnit, List.mem_cons, List.mem_append, List.mem_nil_iff, or_false] at hr
-  rcases hr with rfl | rfl | hr | rfl
+  rcases hr with (rfl | rfl | hr) | rfl
   · simp [onKey]
   · simp [onKey]
   · exact h r hr
